@@ -199,7 +199,7 @@ end TF.C02
 
 /-! ## regenerated-from-source bridge
 
-`Tip5::{split_and_lookup, sbox_layer, mds_generated, round, permutation, trace}` are **also regenerated from `tip5.rs` on
+`Tip5::{split_and_lookup, sbox_layer, mds_generated, round, permutation, trace, new, hash_10}` are **also regenerated from `tip5.rs` on
 every run** (`TF/Gen/Tip5Loops.lean`, `TF.Gen.Loops.tip5_*`, written by `tools/rs2lean_bfe.py`; the helpers
 `raw_bytes`/`from_raw_bytes`/`raw_u64`/`from_raw_u64` come from `b_field_element.rs`, `TF/Gen/BFieldLoops.lean`): the
 state is the list of its 16 raw words, the BFieldElement operators are the translated `bfe_add`/`bfe_mul`, the tables
@@ -251,20 +251,38 @@ theorem gen_trace_eq_model (s : State) :
 example : (Loops.tip5_trace (List.replicate 16 (bfe_new 1))).1.length = 6 ∧
     Loops.tip5_trace_ok (List.replicate 16 (bfe_new 1)) = true := by decide +kernel
 
+/-- regenerated `Tip5::new(domain)` (the `match` on `Domain` read from sponge.rs: `VariableLength` = 0, `FixedLength` = 1;
+    the `while` loop over the capacity lanes) = the hand model's start states -/
+theorem gen_new_eq_model :
+    Loops.tip5_new 0 = some varlenState.toList ∧
+    Loops.tip5_new 1 = some (fixedLengthState (Vector.replicate 10 zero)).toList ∧ Loops.tip5_new_ok 1 = true := by
+  refine ⟨TF.GenBridge.Tip5.gen_new_eq.1, ?_, by decide +kernel⟩
+  rw [TF.GenBridge.Tip5.gen_new_eq.2, TF.GenBridge.Tip5.fixedLengthState_toList]
+  rfl
+
+/-- regenerated `hash_10` (`Self::new(FixedLength)`, `copy_from_slice`, `permutation`, `try_into().unwrap()`) = hand
+    model, every input -/
+theorem gen_hash_10_eq_model (input : Vector Nat 10) :
+    Loops.tip5_hash_10 input.toList = some (hash_10 input).toList :=
+  TF.GenBridge.Tip5.gen_hash_10_eq input
+example : Loops.tip5_hash_10_ok (List.replicate 10 (bfe_new 7)) = true ∧
+    (Loops.tip5_hash_10 (List.replicate 10 (bfe_new 7))).isSome = true ∧
+    Loops.tip5_hash_10_ok (List.replicate 9 (bfe_new 7)) = false := by decide +kernel
+
 /-- **transfer**: the C02 statements for the code as it is in the source now.  For every canonical state the regenerated
     `permutation` returns canonical words whose values are the specification permutation of the input values; the
-    regenerated `trace` returns six canonical states whose values are the specification trace; and the fixed-length
-    hashes (whose glue `Tip5::new(FixedLength)`, `copy_from_slice`, `try_into` is modelled by hand) are the first five
-    words of the regenerated permutation of the hand model's start state, with the specification's values -/
+    regenerated `trace` returns six canonical states whose values are the specification trace; the regenerated `hash_10`
+    terminates with a canonical digest whose values are the specification's; `hash_pair` (whose `Digest` glue is
+    modelled by hand) is the first five words of the regenerated permutation of the hand model's start state, with the
+    specification's values -/
 theorem gen_tip5_transfer (s : State) (hs : CanonV s) :
     (∀ w ∈ Loops.tip5_permutation s.toList, w < P) ∧
     (Loops.tip5_permutation s.toList).map bfe_value = (TF.Spec.Tip5.permutation (s.map bfe_value)).toList ∧
     (Loops.tip5_trace s.toList).1.map (fun t => t.map bfe_value)
       = (TF.Spec.Tip5.trace (s.map bfe_value)).map Vector.toList ∧
     (∀ v : Vector Nat 10, CanonV v →
-      (Loops.tip5_permutation (fixedLengthState (v.map bfe_new)).toList).take 5 = (hash_10 (v.map bfe_new)).toList ∧
-      ((Loops.tip5_permutation (fixedLengthState (v.map bfe_new)).toList).take 5).map bfe_value
-        = (TF.Spec.Tip5.hash10 v).toList) ∧
+      ∃ d, Loops.tip5_hash_10 (v.map bfe_new).toList = some d ∧ (∀ w ∈ d, w < P) ∧
+        d.map bfe_value = (TF.Spec.Tip5.hash10 v).toList) ∧
     (∀ l r : Vector Nat 5, CanonV l → CanonV r →
       ((Loops.tip5_permutation (fixedLengthState (pairInput (l.map bfe_new) (r.map bfe_new))).toList).take 5).map bfe_value
         = (TF.Spec.Tip5.hashPair l r).toList) := by
@@ -285,10 +303,8 @@ theorem gen_tip5_transfer (s : State) (hs : CanonV s) :
     simp only [Function.comp, Vector.toList_map]
   · intro v hv
     have h10 := hash10_spec v hv
-    rw [gen_permutation_eq_model, take5]
-    refine ⟨rfl, ?_⟩
+    refine ⟨_, gen_hash_10_eq_model _, (forall_mem_toList (p := fun x => x < P) _).mpr h10.1, ?_⟩
     rw [← h10.2, Vector.toList_map]
-    rfl
   · intro l r hl hr
     have hpair := hash_pair_spec l r hl hr
     rw [gen_permutation_eq_model, take5, ← hpair.2, Vector.toList_map]
